@@ -38,3 +38,14 @@ func coreAlphabet() []lx.Op {
 	}
 	return a
 }
+
+// retriedOps: writes whose first attempt is aborted by an injected deadlock (40P01 at their
+// 2nd statement) and redone by the ledger's retry loop: a retried dry run still leaves no trace,
+// a retried write is applied once (seeded changes C02b / C07 / C08b removed the dry-run rollback
+// from the retry path).
+func retriedOps() []lx.Op {
+	return []lx.Op{
+		{Kind: "post", Name: "dry-retried", Postings: []lx.P{p("world", "a", "USD", "3")}, DryRun: true, DeadlockAt: 2},
+		{Kind: "post", Name: "post-retried", Postings: []lx.P{p("world", "a", "USD", "4")}, DeadlockAt: 2},
+	}
+}
